@@ -10,7 +10,9 @@ RULE = {
 }
 RULE["C06"] = RULE["C05"] + "; C06 profile: every condition is eventually made true or its till fired, so any thread left parked is a lost notification"
 RULE["C20"] = ("scenario = 1-4 idle consumers (`while not cond: lock.wait()` with cond never true) and mixed C05 scenarios; after external "
-               "activity stops the run must become quiescent; a thread re-waiting 12 times with no external event is a livelock")
+               "activity stops the run must become quiescent; a thread re-waiting 12 times with no external event is a livelock; "
+               "plus real Queues (silent and not) with 1-3 threads parked in pop() on an empty queue / add() on a full one; a timed "
+               "acquire that expires while nothing can move is polling")
 
 
 class M3(plug.Model):
@@ -37,6 +39,39 @@ class M3(plug.Model):
 MODEL = M3()
 
 
+class M4C20(plug.Model):
+    """C20 on Queue.pop()/add(): the real Queue under the scheduler (M4 harness), monitors for busy waiting"""
+    name = "m4"
+    mode = "TA (trace acceptance)"
+
+    def run(self, sc, chooser, seed):
+        from . import m4_queue
+        return m4_queue.run_scenario(sc, chooser=chooser, seed=seed)
+
+    def shape(self, sc):
+        from . import m4_queue
+        return m4_queue.shape(sc)
+
+    def header(self, sc):
+        from . import p_m4
+        return p_m4.MODEL.header(sc)
+
+    def est_steps(self, sc):
+        return 80 * len(sc["threads"])
+
+    def relevant(self, prop, r):
+        msgs = [m for m in r["monitor"] if m.startswith("C20:") or m.startswith("unexpected")]
+        return msgs, list(r.get("c20", []))
+
+
+MODELQ = M4C20()
+
+
+def genq(rng, prop, job):
+    from . import m4_queue
+    return m4_queue.gen_c20(rng)
+
+
 def gen(rng, prop, job):
     from . import m3_lock
     if job.get("stress"):
@@ -51,18 +86,33 @@ def gen(rng, prop, job):
 
 
 def make_jobs(prop, tier, seed):
-    return plug.std_jobs(prop, tier, seed, "m3", n_quick=16, per_quick=8, schedules=6)
+    jobs = plug.std_jobs(prop, tier, seed, "m3", n_quick=16, per_quick=8, schedules=6)
+    if prop == "C20":
+        for j in range(4 if tier == "quick" else 24):
+            jobs.append({"kind": "explore", "side": "queue", "prop": prop, "seed": seed * 32452843 + j, "scenarios": 8, "schedules": 6})
+    return jobs
 
 
 def search_jobs(prop, tier, seed, corr_fail):
     return plug.std_search_jobs(prop, tier, seed, corr_fail) + plug.std_search_jobs(prop, tier, seed + 17, [], extra={"stress": True})
 
 
+def _is_queue(job):
+    if job.get("side") == "queue":
+        return True
+    rp = (job.get("replay") or {}).get("replay") or job.get("replay") or (job.get("failure") or {}).get("replay") or {}
+    return rp.get("model") == "m4"
+
+
 def run_job(job):
+    if _is_queue(job):
+        return plug.std_job(MODELQ, genq, job)
     return plug.std_job(MODEL, gen, job)
 
 
 def shrink(prop, failure):
+    if (failure.get("replay") or {}).get("model") == "m4":
+        return plug.std_shrink(MODELQ, prop, failure)
     return plug.std_shrink(MODEL, prop, failure)
 
 
